@@ -23,13 +23,13 @@ Rich == Level >= 2
 Methods == IF Rich THEN {<<71, 69, 84>>, <<80, 79, 83, 84>>, <<77, 45, 120, 33>>} ELSE {<<80, 79, 83, 84>>}
 Targets == IF Rich THEN {<<47>>, <<47, 97, 63, 98, 61, 99>>} ELSE {<<47, 97, 63, 98, 61, 99>>}
 FieldSets == IF Rich THEN {<<>>, <<[n |-> <<72, 111, 115, 116>>, v |-> <<104, 46, 101, 120, 97, 109, 112, 108, 101>>]>>, <<[n |-> <<88, 45, 65>>, v |-> <<49>>], [n |-> <<72, 111, 115, 116>>, v |-> <<104, 46, 101, 120, 97, 109, 112, 108, 101>>], [n |-> <<120, 45, 97>>, v |-> <<50, 32, 59, 32, 113>>]>>, <<[n |-> <<69, 120, 112, 101, 99, 116>>, v |-> <<49, 48, 48, 45, 99, 111, 110, 116, 105, 110, 117, 101>>]>>}
-             ELSE IF Level = 1 THEN {<<>>, <<[n |-> <<88, 45, 65>>, v |-> <<49>>], [n |-> <<72, 111, 115, 116>>, v |-> <<104, 46, 101, 120, 97, 109, 112, 108, 101>>], [n |-> <<120, 45, 97>>, v |-> <<50, 32, 59, 32, 113>>]>>} ELSE {<<[n |-> <<88, 45, 65>>, v |-> <<49>>], [n |-> <<72, 111, 115, 116>>, v |-> <<104, 46, 101, 120, 97, 109, 112, 108, 101>>], [n |-> <<120, 45, 97>>, v |-> <<50, 32, 59, 32, 113>>]>>}
+             ELSE {<<[n |-> <<88, 45, 65>>, v |-> <<49>>], [n |-> <<72, 111, 115, 116>>, v |-> <<104, 46, 101, 120, 97, 109, 112, 108, 101>>], [n |-> <<120, 45, 97>>, v |-> <<50, 32, 59, 32, 113>>]>>}
 Payloads == IF Rich THEN {<<>>, <<65>>, <<71, 69, 84, 32, 47, 115, 32, 72, 84, 84, 80, 47, 49, 46, 49, 13, 10, 13, 10>>, <<13, 10, 48, 13, 10, 13, 10>>}
-            ELSE IF Level = 1 THEN {<<65>>, <<71, 69, 84, 32, 47, 115, 32, 72, 84, 84, 80, 47, 49, 46, 49, 13, 10, 13, 10>>} ELSE {<<71, 69, 84, 32, 47, 115, 32, 72, 84, 84, 80, 47, 49, 46, 49, 13, 10, 13, 10>>}
+            ELSE {<<71, 69, 84, 32, 47, 115, 32, 72, 84, 84, 80, 47, 49, 46, 49, 13, 10, 13, 10>>}
 ChunkLists == IF Rich THEN {<<>>, <<<<65, 66>>>>, <<<<13, 10>>, <<48>>>>, <<<<71, 69, 84, 32, 47, 115, 32, 72, 84, 84, 80, 47, 49, 46, 49, 13, 10, 13, 10>>>>} ELSE {<<<<13, 10>>, <<48>>>>}
 Bodies == (IF Level = 0 THEN {} ELSE {[k |-> "none"]}) \cup {[k |-> "len", d |-> p] : p \in Payloads} \cup {[k |-> "chunked", parts |-> c] : c \in ChunkLists}
 Descriptors == {[m |-> m, t |-> t, v |-> v, close |-> c, fs |-> f, body |-> b] :
-                  m \in Methods, t \in Targets, v \in {<<72, 84, 84, 80, 47, 49, 46, 49>>, <<72, 84, 84, 80, 47, 49, 46, 48>>}, c \in (IF Level = 0 THEN {FALSE} ELSE BOOLEAN), f \in FieldSets, b \in Bodies}
+                  m \in Methods, t \in Targets, v \in (IF Level = 0 THEN {<<72, 84, 84, 80, 47, 49, 46, 49>>} ELSE {<<72, 84, 84, 80, 47, 49, 46, 49>>, <<72, 84, 84, 80, 47, 49, 46, 48>>}), c \in (IF Level = 0 THEN {FALSE} ELSE BOOLEAN), f \in FieldSets, b \in Bodies}
 
 RECURSIVE Dec(_)
 Dec(n) == IF n < 10 THEN <<48 + n>> ELSE Dec(n \div 10) \o <<48 + (n % 10)>>
